@@ -2342,6 +2342,16 @@ func (s *BgpServer) StopBgp(ctx context.Context, r *api.StopBgpRequest) error {
 		for _, l := range s.listeners {
 			l.Close()
 		}
+		// the MRT dump writers and the BMP clients have goroutines of their
+		// own; nothing is left for them to report.
+		for name, w := range s.mrtManager.writer {
+			w.Stop()
+			delete(s.mrtManager.writer, name)
+		}
+		for host, c := range s.bmpManager.clientMap {
+			c.Stop()
+			delete(s.bmpManager.clientMap, host)
+		}
 		s.bgpConfig.Global = oc.Global{}
 		return nil
 	}, false)
